@@ -341,6 +341,13 @@ def contracts(p: Program) -> list[str]:
         ensures=[
             'Inv_srv(self)',
             "unchanged('tasks', 'mailbox_to_task_dict', 'mailbox_counter')",
+            # every result, wherever it goes, is one task less in flight at
+            # the employee that completed it (C15)
+            '''self.employees[emp_index(self, result.completed_by)].num_tasks
+               == old(self.employees[emp_index(
+                        self, result.completed_by)].num_tasks) - 1''',
+            "unchanged_except('num_tasks', self.employees[emp_index("
+            "self, result.completed_by)])",
             # result for a client whose mailbox is open
             '''implies(result.return_address.worker_id == -1
                  and old(result.return_address.mailbox_index
